@@ -103,7 +103,29 @@ pub fn expand(pattern: &[Vec<u8>], toks: &Tokens, trailing: Vec<u8>, injective: 
     gaps
 }
 
+/// White space inside a pragma value (solang lexes `>=0.7.0 <0.9.0` as ONE token): `ws` replaces every run of it.
+fn relay_pragma_value(t: &str, ws: &str) -> String {
+    let mut out = String::new();
+    let mut in_ws = false;
+    for ch in t.chars() {
+        if ch == ' ' || ch == '\t' || ch == '\n' || ch == '\r' {
+            if !in_ws {
+                out.push_str(ws);
+            }
+            in_ws = true;
+        } else {
+            in_ws = false;
+            out.push(ch);
+        }
+    }
+    out
+}
+
 pub fn render(src: &str, toks: &Tokens, gaps: &[Vec<u8>], replace_strings: bool) -> String {
+    render_with(src, toks, gaps, replace_strings, None)
+}
+
+pub fn render_with(src: &str, toks: &Tokens, gaps: &[Vec<u8>], replace_strings: bool, pragma_ws: Option<&str>) -> String {
     let mut out = String::new();
     for (j, (a, b)) in toks.spans.iter().enumerate() {
         for c in gaps[j].iter() {
@@ -115,6 +137,8 @@ pub fn render(src: &str, toks: &Tokens, gaps: &[Vec<u8>], replace_strings: bool)
             out.push_str(q);
             out.push_str(CODELIKE);
             out.push_str(q);
+        } else if toks.pragma_value[j] && pragma_ws.is_some() {
+            out.push_str(&relay_pragma_value(t, pragma_ws.unwrap()));
         } else {
             out.push_str(t);
         }
@@ -135,8 +159,15 @@ fn canonical_gaps(n: usize) -> Vec<Vec<u8>> {
 fn same_tokens(a_src: &str, a: &Tokens, b_src: &str) -> bool {
     match tokenize(b_src) {
         Some(b) => {
+            // (white space inside a pragma value is layout too)
             a.spans.len() == b.spans.len()
-                && a.spans.iter().zip(b.spans.iter()).all(|((x0, x1), (y0, y1))| a_src[*x0..*x1] == b_src[*y0..*y1])
+                && a.spans.iter().zip(b.spans.iter()).enumerate().all(|(j, ((x0, x1), (y0, y1)))| {
+                    if a.pragma_value[j] {
+                        relay_pragma_value(&a_src[*x0..*x1], " ") == relay_pragma_value(&b_src[*y0..*y1], " ")
+                    } else {
+                        a_src[*x0..*x1] == b_src[*y0..*y1]
+                    }
+                })
         }
         None => false,
     }
@@ -208,7 +239,18 @@ pub fn record(corpus_dir: &str, patterns_file: &str, mode: &str, per_program: us
                     }
                 };
                 let gaps = expand(&pattern, &ctoks, trailing, injective);
-                let text = render(&canon, &ctoks, &gaps, false);
+                // the gap between the comparators of a version range is re-laid too (kept, tab, line feed, mixed)
+                let pragma_ws = [None, Some("\t"), Some("\n"), Some("  \n\t")][i % 4];
+                let text = render_with(&canon, &ctoks, &gaps, false, pragma_ws);
+                // line feeds INSIDE tokens (re-laid pragma values): <<token index (1-based), count>>
+                let inner: Vec<Value> = (0..n)
+                    .filter(|j| ctoks.pragma_value[*j] && pragma_ws.is_some())
+                    .map(|j| {
+                        let (a, b) = ctoks.spans[j];
+                        json!([j + 1, relay_pragma_value(&canon[a..b], pragma_ws.unwrap()).matches('\n').count()])
+                    })
+                    .filter(|v| v[1].as_u64().unwrap_or(0) > 0)
+                    .collect();
                 if !parses(&text) || !same_tokens(&canon, &ctoks, &text) {
                     discarded += 1;
                     continue;
@@ -236,13 +278,48 @@ pub fn record(corpus_dir: &str, patterns_file: &str, mode: &str, per_program: us
                     out.nontrivial += 1;
                 }
                 let inj = gaps.iter().enumerate().all(|(j, g)| j == 0 || j == n || g.iter().map(|c| atom_lf(*c)).sum::<usize>() >= 1);
-                trace.push(&json!({"k": "layout", "src": name, "variant": vname, "n": n, "inj": inj, "gaps": gaps, "dets": drecs}));
+                trace.push(&json!({"k": "layout", "src": name, "variant": vname, "n": n, "inj": inj, "gaps": gaps, "inner": inner, "dets": drecs}));
                 texts.push(&json!({"src": name, "variant": vname, "text": text}));
                 // constructs that span several lines in this layout: the reported lines must still be lines on which
                 // a matching construct BEGINS (Patterns.tla on the projected tree of the re-laid-out text)
                 if !injective && i < 6 {
                     let mut o2 = Outcome::new();
                     crate::detect::record_program(&format!("relayout:{}:{}", name, i), &text, None, detect, &mut o2);
+                }
+                // a TWIN of the same byte length whose line feeds sit elsewhere (adjacent gaps of equal length swapped),
+                // analysed right after: a result must not depend on the file analysed before (tables keyed by size/address)
+                if i < 4 {
+                    let glen = |g: &Vec<u8>| g.iter().map(|c| atom_text(*c).len()).sum::<usize>();
+                    let glf = |g: &Vec<u8>| g.iter().map(|c| atom_lf(*c)).sum::<usize>();
+                    let mut gaps2 = gaps.clone();
+                    let mut j = 1;
+                    let mut swapped = 0;
+                    while j + 1 < n {
+                        let near = ctoks.pragma_value[j] || ctoks.pragma_value[j - 1] || ctoks.pragma_value[j + 1];
+                        if !near && glen(&gaps2[j]) == glen(&gaps2[j + 1]) && glf(&gaps2[j]) != glf(&gaps2[j + 1]) {
+                            gaps2.swap(j, j + 1);
+                            swapped += 1;
+                            j += 2;
+                        } else {
+                            j += 1;
+                        }
+                    }
+                    let text2 = render_with(&canon, &ctoks, &gaps2, false, pragma_ws);
+                    if swapped > 0 && text2.len() == text.len() && text2 != text && parses(&text2) && same_tokens(&canon, &ctoks, &text2) {
+                        let mut drecs2 = vec![];
+                        for (di, d) in dets.iter().enumerate() {
+                            if let (Some(fl), Ok(rep)) = (&flags[di], d.run(&text2)) {
+                                let rep: Vec<i32> = rep.into_iter().collect();
+                                if !fl.is_empty() || !rep.is_empty() {
+                                    drecs2.push(json!({"d": d.name(), "F": fl, "rep": rep}));
+                                }
+                            }
+                        }
+                        out.evaluations += 1;
+                        let inj2 = gaps2.iter().enumerate().all(|(j, g)| j == 0 || j == n || g.iter().map(|c| atom_lf(*c)).sum::<usize>() >= 1);
+                        trace.push(&json!({"k": "layout", "src": name, "variant": format!("{}-twin", vname), "n": n, "inj": inj2, "gaps": gaps2, "inner": inner, "dets": drecs2}));
+                        texts.push(&json!({"src": name, "variant": format!("{}-twin", vname), "text": text2}));
+                    }
                 }
                 if out.samples.len() < 2 && i == 3 {
                     out.sample(json!({"src": name, "pattern": pattern, "first_gaps": &gaps[..gaps.len().min(6)]}));
